@@ -33,6 +33,8 @@ def run(ck, m):
                      'attempt, field by field — a record with db id and key id swapped decodes, after the restart that kept the log, to another '
                      'database and key')
     _alias.repeat(ck, m, 'C12', ('C12.a',), 'C16.f', key_filter=lambda k: 'retry-writes-the-same-record' in k)
+    discard_is_total(ck, m)
+    metadata_written_by_every_snapshot(ck, m)
 
 
 def _run16(ck, m):
@@ -389,3 +391,69 @@ def _const_defs(b, local, _seen=None):
                 if p and not p.get('p'):
                     out += _const_defs(b, p['l'], seen)
     return out
+
+
+def _removes_files(P, bid, seen=None):
+    seen = seen if seen is not None else set()
+    if bid in seen or bid not in P.bodies:
+        return False
+    seen.add(bid)
+    for _bi, t in P.bodies[bid].calls():
+        if callee_decl(t) in ('std::fs::remove_file', 'std::fs::remove_dir_all') or _removes_files(P, callee(t), seen):
+            return True
+    return False
+
+
+def discard_is_total(ck, m):
+    """C16.g — see RULES"""
+    P = m.prog
+    ck.rule('C16.g', 'a discarded log is discarded whole: in the function that throws the operation log away every step — the flag file, the live '
+                     'file, the listing of the rotated files — is reached on every path; an early way out ("no live file, nothing else to clean") '
+                     'leaves rotated files behind whose records name key ids that the emptied key map is about to hand out again')
+    cands = [b for b in P.user_bodies() if b.kind in ('fn', 'method') and b.id.startswith('nundb::disk_ops::')
+             and any(callee_decl(t) == 'std::fs::read_dir' for _, t in b.calls())
+             and any(callee_decl(t) == 'std::fs::remove_file' for _, t in b.calls())
+             and sum(1 for _, t in b.calls() if callee(t) in P.bodies and _removes_files(P, callee(t))) >= 2]
+    n = 0
+    for b in cands:
+        n += 1
+        steps = [(bi, 'read_dir') for bi, t in b.calls() if callee_decl(t) == 'std::fs::read_dir'] + \
+                [(bi, short(callee(t))) for bi, t in b.calls() if callee(t) in P.bodies and _removes_files(P, callee(t))]
+        skipped = sorted('%s (%s)' % (nm, b.loc(bi)) for bi, nm in steps if not b.postdominates(bi, 0))
+        ck.ob('C16.g', short(b.id), 'discard-is-total', not skipped,
+              'every one of the %d steps of the discard is reached on every path' % len(steps) if not skipped else
+              'the discard can end before %s: part of the log outlives the discard although the key map and the flag were reset' % skipped,
+              '%s:%s' % (b.file, b.line))
+    ck.floor('C16.g', n, 1, 'functions that discard the operation log (flag file, live file, rotated files)')
+
+
+def metadata_written_by_every_snapshot(ck, m):
+    """C16.h — see RULES"""
+    P = m.prog
+    ck.rule('C16.h', 'every completed snapshot leaves the metadata file (database id, conflict strategy) behind: the call that writes it is reached '
+                     'on every path of the snapshot writer — a database whose metadata write was lost to a kill gets it back with the next snapshot '
+                     'instead of coming back, after the next restart, under the fall-back id that another database may own by then')
+    wr = [b for b in P.user_bodies() if b.id.endswith('NodeDrive::storage_data_disk')]
+    if not wr:
+        ck.undecided('C16.h', 'writer', 'anchor', 'disk snapshot writer not found')
+        return
+    wb = wr[0]
+    mw = []
+    for bi, t in wb.calls():
+        cb = P.bodies.get(callee(t))
+        if cb is None:
+            continue
+        fam = [cb] + [P.bodies[k] for k in P.bodies if k.startswith(cb.id + '::{closure')]
+        reads_meta = any(any(e[0] == 'f' and str(e[2]).endswith('bo::DatabaseMataData') for e in (s_.get('r', {}).get('p') or {}).get('p', ()))
+                         or any(e[0] == 'f' and str(e[2]).endswith('bo::DatabaseMataData')
+                                for o in ([s_.get('r', {}).get('o')] if s_.get('r', {}).get('o') else [])
+                                for e in ((o.get('c') or o.get('m') or {}).get('p', ())))
+                         for x in fam for bl in x.blocks for s_ in bl['s'] if s_['k'] == 'assign')
+        writes = any(callee_decl(t2).startswith(('std::io::Write::write', 'std::fs::write')) for x in fam for _, t2 in x.calls())
+        if reads_meta and writes:
+            mw.append(bi)
+    okf = bool(mw) and any(wb.postdominates(x, 0) for x in mw)
+    ck.ob('C16.h', short(wb.id), 'metadata-written-by-every-snapshot', okf,
+          'the metadata writer is called on every path of the snapshot writer' if okf else
+          'the snapshot writer can finish without writing the metadata file (calls: %s): id and strategy of the database are restored from the '
+          'fall-back (the number of databases loaded so far, Newer) after the next restart' % [wb.loc(x) for x in mw], '%s:%s' % (wb.file, wb.line))
